@@ -1715,6 +1715,10 @@ class Lib:
                     return NONE
                 return some(Opaque('Captures', groups=tuple(m.group(i) for i in range(0, (m.re.groups or 0) + 1))))
         if tag == 'Captures':
+            if method == 'name':
+                raise Unsupported('named capture groups', node)
+            if method == 'len':
+                return len(v.get('groups'))
             if method == 'get':
                 i = I.deref(args[0])
                 g = v.get('groups')
